@@ -15,6 +15,7 @@ folding and remembering the outcome of earlier tests of the same term.
 """
 import re
 
+import examined
 import mirutil
 
 _IDENT = re.compile(r"(?<![\w:'])[A-Za-z_][A-Za-z0-9_]*(?![\w:])")
@@ -59,10 +60,17 @@ PURE_TRAITS = {'dasp_frame::Frame', 'dasp_sample::Sample', 'dasp_sample::SignedS
                'dasp_window::Window'}
 
 
+# core functions every engine sees through (bodies exported by the extractor): pure control-flow sugar
+TRANSPARENT_CORE = ('core::bool::<impl bool>::then', 'core::convert::identity',
+                    # `x.checked_sub(1)?` is `if x < 1 { return None }; x - 1`
+                    '<core::option::Option<T> as core::ops::try_trait::', 'core::num::<impl usize>::checked_sub', 'core::num::<impl usize>::checked_add')
+
+
 class Policy:
     """What to inline, what to keep as an opaque effect, what is pure."""
 
-    def __init__(self, stop=(), pure_extra=(), inline=True, max_depth=6, no_inline_prefixes=(), stop_trait_methods=(), inline_core=False, subst_types=False, pure_ref_values=False, typed_floats=False, record_ref_values=False):
+    def __init__(self, stop=(), pure_extra=(), inline=True, max_depth=6, no_inline_prefixes=(), stop_trait_methods=(), inline_core=False, subst_types=False, pure_ref_values=False, typed_floats=False, record_ref_values=False, own_body_only=False):
+        self.own_body_only = own_body_only    # keep every call of a workspace function as an event (closures and core combinators are still seen through)
         self.typed_floats = typed_floats      # float comparisons / arithmetic get distinct operator names (`Lt.f`): NaN breaks the integer laws
         self.record_ref_values = record_ref_values  # an opaque call given `&x` sees the value of x at the call: record it with the event
         self.pure_ref_values = pure_ref_values  # a pure call given `&x` is a function of the value of x at the call, not of where x lives
@@ -77,6 +85,8 @@ class Policy:
 
     def may_inline(self, callee, target):
         if not self.inline or target is None:
+            return False
+        if self.own_body_only and target.get('crate') != '<extern>' and target.get('kind') != 'Closure':
             return False
         p = target['path']
         if p in self.stop or callee['path'] in self.stop:
@@ -391,6 +401,8 @@ class Engine:
     def binop(self, op, a, b):
         wo = op.endswith('WithOverflow')
         base = op[:-12] if wo else op
+        if base.endswith('Unchecked') and not self.policy.inline_core:
+            base = base[:-9]        # (seen only inside core bodies: the same value, overflow being excluded by the guard before it)
         r = None
         if a[0] == 'int' and b[0] == 'int':
             x, y = a[1], b[1]
@@ -414,6 +426,13 @@ class Engine:
             k, x = (a, b) if a[0] == 'bool' else (b, a)
             pos = (k[1] is True) == (base == 'Eq')
             r = x if pos else ('un', 'Not', x)
+        if r is None and base in ('Eq', 'Ne'):
+            # (x / N) * N == x  is the divisibility test  x % N == 0  (N a non-zero constant)
+            for u, v in ((a, b), (b, a)):
+                if u[0] == 'op' and u[1] == 'Mul' and len(u) == 4:
+                    for q, n in ((u[2], u[3]), (u[3], u[2])):
+                        if n[0] == 'int' and n[1] != 0 and q[0] == 'op' and q[1] == 'Div' and q[2] == v and q[3][0] == 'int' and q[3][1] == n[1]:
+                            r = ('op', base, ('op', 'Rem', v, q[3]), ('int', 0) + tuple(n[2:]))
         if r is None:
             r = ('op', base, a, b)
         if wo:
@@ -540,7 +559,7 @@ class Engine:
         out = []
         for st2, end, ret in self.exec(body, frame, 0, st, 0, (body['hash'],)):
             writes = {loc: v for loc, v in st2.store.items() if loc[0][0] == 'P'}
-            out.append({'conds': st2.conds, 'events': st2.events, 'writes': writes, 'ret': ret, 'end': end, 'store': st2.store})
+            out.append({'conds': st2.conds, 'events': st2.events, 'writes': writes, 'ret': ret, 'end': end, 'store': st2.store, 'tys': st2.tys})
         return out
 
     def exec(self, body, frame, bb, st, depth, stack):
@@ -742,6 +761,9 @@ class Engine:
                 target = ext.get(res['hash'])
             if target is None and callee.get('trait') is None:
                 target = ext.get(callee['hash'])
+        if target is None and not self.policy.inline_core and rpath.startswith(TRANSPARENT_CORE):
+            # spellings, not operations: `c.then(|| x)` is `if c { Some(x) } else { None }`
+            target = getattr(self.facts, 'extern_by_hash', {}).get(res.get('hash') or callee['hash'])
         # closure values called through Fn* traits
         if target is None and callee.get('trait') in ('core::ops::function::FnMut', 'core::ops::function::Fn', 'core::ops::function::FnOnce') and args:
             cv = args[0]
@@ -756,6 +778,15 @@ class Engine:
                     if spread is not None:
                         yield from self.inline(target, spread, st, depth, stack, resume)
                         return
+                if target is None and '::' in cv[1]:
+                    # a pure trait method used as a value (`half_wave(frame, PartialOrd::lt)`): calling it is the direct call
+                    tr, nm = cv[1].rsplit('::', 1)
+                    if (tr, nm) in PURE_TRAIT_METHODS or tr in PURE_TRAITS:
+                        spread = list(args[1][2]) if (len(args) > 1 and args[1][0] == 'agg') else None
+                        if spread is not None:
+                            pargs = [('refval', self.read(st, a[1])) if a[0] == 'ref' else a for a in spread] if self.policy.pure_ref_values else spread
+                            yield from resume(st, ('app', cv[1], tuple(pargs), tuple(cv[3])))
+                            return
                 target = None
         if target is not None and 'blocks' in target and target['hash'] not in stack and depth < self.policy.max_depth \
                 and self.policy.may_inline(callee, target):
@@ -846,6 +877,8 @@ class Engine:
     def inline(self, target, cargs, st, depth, stack, resume, tyargs=None):
         if target.get('crate') != '<extern>' and not any(b is target for b in self.inlined_bodies):
             self.inlined_bodies.append(target)
+            if not self.policy.inline_core:      # (the equivalence engine's own inlining is not a rule looking at the body)
+                examined.note(target)
         nf = st.nframes
         st.nframes += 1
         if self.policy.subst_types:
@@ -906,6 +939,9 @@ class Engine:
                 if g[0] == 'guard':
                     return ('ref', g[1])
             return None
+        if rpath in ('<core::mem::manually_drop::ManuallyDrop<T> as core::ops::deref::Deref>::deref',
+                     '<core::mem::manually_drop::ManuallyDrop<T> as core::ops::deref::DerefMut>::deref_mut') and args[0][0] == 'ref':
+            return ('ref', (args[0][1][0], args[0][1][1] + (('f', 0),)))      # a transparent wrapper: the reference to its only field
         if rpath.startswith('<alloc::rc::Rc<T') and name == 'deref':
             a = args[0]
             v = self.read(st, a[1]) if a[0] == 'ref' else ('deref', a)
@@ -918,6 +954,12 @@ class Engine:
                 if ev['kind'] == 'call' and ev['path'] in ('core::slice::raw::from_raw_parts', 'core::slice::raw::from_raw_parts_mut'):
                     return ev['args'][1]
             return None
+        if p.startswith(('core::ptr::const_ptr::<impl *const T>::', 'core::ptr::mut_ptr::<impl *mut T>::')) and name in ('cast', 'cast_mut', 'cast_const') and len(args) == 1:
+            # the method spellings of `ptr as *const U` / `as *mut T` / `as *const T`
+            mut = ('mut' if 'mut_ptr' in p else 'const') if name == 'cast' else ('mut' if name == 'cast_mut' else 'const')
+            tys = callee.get('args') or []
+            pointee = tys[1] if name == 'cast' and len(tys) > 1 else (tys[0] if tys else '_')
+            return ('cast', 'PtrToPtr', args[0], '*%s %s' % (mut, pointee))
         if name == 'into_iter' and rpath == '<I as core::iter::traits::collect::IntoIterator>::into_iter':
             return args[0]          # the blanket impl for iterators is the identity
         if p == 'core::option::Option::<T>::take' and args[0][0] == 'ref':
@@ -940,6 +982,13 @@ class Engine:
             if v[0] == 'agg' and v[1][0] == 'adt':
                 if v[1][2] == 0:
                     return v
+                inner = (args[0][1][0], args[0][1][1] + (('d', 1), ('f', 0)))
+                return ('agg', ('adt', 'core::option::Option', 1, 'Some'), (('ref', inner),))
+            # an option whose variant an earlier test on this path has already established
+            isnone = self.decide(st, ('op', 'Eq', ('discr', v), ('int', 0, 'isize')))
+            if isnone == t_bool(True):
+                return ('agg', ('adt', 'core::option::Option', 0, 'None'), ())
+            if isnone == t_bool(False):
                 inner = (args[0][1][0], args[0][1][1] + (('d', 1), ('f', 0)))
                 return ('agg', ('adt', 'core::option::Option', 1, 'Some'), (('ref', inner),))
             return None
